@@ -513,3 +513,8 @@ Proof.
   - vm_compute. reflexivity.
   - vm_compute. discriminate.
 Qed.
+
+Corollary pairs_roundtrip ps body : pairs_wf ps -> option_map fst (spec_request (do_written ps body)) = Some ps.
+Proof. intros H. rewrite request_roundtrip by exact H. reflexivity. Qed.
+Corollary body_roundtrip ps body : pairs_wf ps -> option_map snd (spec_request (do_written ps body)) = Some body.
+Proof. intros H. rewrite request_roundtrip by exact H. reflexivity. Qed.
